@@ -828,6 +828,18 @@ def shape_ok(model, sd, params):
             for t in u.toks:
                 if t.kind == "label" and t.name in targets and t.at_end:
                     return False
+    # the new symbol of a retarget does not sit directly in front of padding
+    # the library made (the label then names the padding block itself, which
+    # belongs to no function, while in the listing it names what follows)
+    newsyms = {op["b"] for op in sd["ops"] if op["k"] == "retarget"}
+    if newsyms:
+        for sname in m.section_order:
+            for u in m.sections[sname]:
+                for i, t in enumerate(u.toks):
+                    if t.kind == "label" and t.name in newsyms:
+                        nb = next((x for x in u.toks[i + 1 :] if x.is_bytes()), None)
+                        if nb is not None and nb.origin == "pad":
+                            return False
     # rule 2: control-flow targets label code (not demanded where only the
     # tables / well-formedness are judged: a deleted branch target in front
     # of data is kept as a zero-sized code block, doc/Deletion.md)
